@@ -107,13 +107,13 @@ def mkGrid (g0 delta : F) (dec fd : Nat) : PGrid F := ⟨aroundDec dec g0, aroun
 
 /-- `ParameterGrid.__init__` with its argument checks: `none` = `ValueError` for more than
 `maxDec` decimals (the literal 16 of the source), a negative number of decimals, or a spacing that
-rounds to zero. -/
+is not positive after rounding. -/
 def mkGridChecked (g0 delta : F) (dec : Int) (fd maxDec : Nat) : Option (PGrid F) :=
   if dec < 0 ∨ (maxDec : Int) < dec then none
   else
     let G := mkGrid g0 delta dec.toNat fd
-    -- a spacing that is zero (or nan) after rounding to `dec` decimals is refused
-    if G.delta < ofI 0 ∨ ofI 0 < G.delta then some G else none
+    -- the spacing has to be positive after rounding to `dec` decimals (zero, negative, nan: refused)
+    if ofI 0 < G.delta then some G else none
 
 /-- `_calc_floatD_and_intD`: `floatD = around((value - lb)/delta, 9)` (`fd = 9`) -/
 def floatD (G : PGrid F) (v : F) : F := aroundDec G.fd ((v - G.lb) / G.delta)
@@ -239,15 +239,15 @@ variable {F : Type} [Add F] [Sub F] [Mul F] [Div F] [LT F] [DecidableLT F] [Roun
 
 /-- the cache of `Linear1DGridManifoldInterpolationMethod` -/
 structure LinCache (F : Type) where
-  sid : Int
+  sid : Option Int
   x0 : List F
   m : List F
   b : List F
 
 /-- the "not cached" branch of `Linear1D….__call__`: line parameters for all values.
 `Mf sid gridparams` is the manifold function (value array for the given per-source grid values
-in trial-data state `sid`). `none` = the broadcast raised. -/
-def linCompute (G : PGrid F) (Mf : Int → List F → List F) (ns : List Nat) (sid : Int) (xs : List F) :
+in trial-data state `sid`; `sid = none` is Python's `trial_data_state_id is None`). `none` = the broadcast raised. -/
+def linCompute (G : PGrid F) (Mf : Option Int → List F → List F) (ns : List Nat) (sid : Option Int) (xs : List F) :
     Option (LinCache F) :=
   let x0 := xs.map (roundLower G)
   let x1 := xs.map (roundUpper G)
@@ -272,8 +272,8 @@ def linEval (c : LinCache F) (ns : List Nat) (xs : List F) : Option (List F × L
 
 /-- one `__call__` of the linear method with its cache; returns the post-state also when the
 call raises (`none`). -/
-def linCall (G : PGrid F) (Mf : Int → List F → List F) (ns : List Nat)
-    (cache : Option (LinCache F)) (sid : Int) (xs : List F) :
+def linCall (G : PGrid F) (Mf : Option Int → List F → List F) (ns : List Nat)
+    (cache : Option (LinCache F)) (sid : Option Int) (xs : List F) :
     Option (LinCache F) × Option (List F × List F) :=
   let x0 := xs.map (roundLower G)
   let fresh : Option (LinCache F) × Option (List F × List F) :=
@@ -281,17 +281,19 @@ def linCall (G : PGrid F) (Mf : Int → List F → List F) (ns : List Nat)
     | some c' => (some c', linEval c' ns xs)
     | none => (cache, none)
   match cache with
-  | some c => if c.sid = sid ∧ (c.x0 == x0) = true then (cache, linEval c ns xs) else fresh
+  | some c =>
+    -- `trial_data_state_id is not None and … == …`: without a state id nothing is ever taken from the cache
+    if sid.isSome = true ∧ c.sid = sid ∧ (c.x0 == x0) = true then (cache, linEval c ns xs) else fresh
   | none => fresh
 
 /-- specification: what a fresh object returns -/
-def linSpec (G : PGrid F) (Mf : Int → List F → List F) (ns : List Nat) (sid : Int) (xs : List F) :
+def linSpec (G : PGrid F) (Mf : Option Int → List F → List F) (ns : List Nat) (sid : Option Int) (xs : List F) :
     Option (List F × List F) :=
   (linCompute G Mf ns sid xs).bind fun c => linEval c ns xs
 
 /-- a whole history of calls on one object, starting with the given cache -/
-def linRun (G : PGrid F) (Mf : Int → List F → List F) (ns : List Nat) :
-    Option (LinCache F) → List (Int × List F) → List (Option (List F × List F))
+def linRun (G : PGrid F) (Mf : Option Int → List F → List F) (ns : List Nat) :
+    Option (LinCache F) → List (Option Int × List F) → List (Option (List F × List F))
   | _, [] => []
   | cache, (sid, xs) :: rest =>
     let r := linCall G Mf ns cache sid xs
@@ -299,7 +301,7 @@ def linRun (G : PGrid F) (Mf : Int → List F → List F) (ns : List Nat) :
 
 /-- the cache of `Parabola1DGridManifoldInterpolationMethod` -/
 structure ParCache (F : Type) where
-  sid : Int
+  sid : Option Int
   x1 : List F
   M1 : List F
   a : List F
@@ -307,7 +309,7 @@ structure ParCache (F : Type) where
 
 /-- parabola parameters around the nearest grid points `x1` (`none` = the manifold function did not
 return one value per entry of the values array: numpy raises, nothing is stored) -/
-def parCompute (G : PGrid F) (Mf : Int → List F → List F) (ns : List Nat) (sid : Int) (xs : List F) :
+def parCompute (G : PGrid F) (Mf : Option Int → List F → List F) (ns : List Nat) (sid : Option Int) (xs : List F) :
     Option (ParCache F) :=
   let dx := G.delta
   let x1 := xs.map (roundNearest G)
@@ -340,8 +342,8 @@ def bcastEq (a b : List F) : Option Bool :=
 /-- one `__call__` of the parabola method (the *fixed* code): `x - x1` is broadcast first — this
 validates the number of parameter values — and only then the cache is consulted or replaced, so a
 raising call leaves the cache as it was. -/
-def parCall (G : PGrid F) (Mf : Int → List F → List F) (ns : List Nat)
-    (cache : Option (ParCache F)) (sid : Int) (xs : List F) :
+def parCall (G : PGrid F) (Mf : Option Int → List F → List F) (ns : List Nat)
+    (cache : Option (ParCache F)) (sid : Option Int) (xs : List F) :
     Option (ParCache F) × Option (List F × List F) :=
   let x1 := xs.map (roundNearest G)
   match broadcast (List.zipWith (· - ·) xs x1) ns with
@@ -354,7 +356,7 @@ def parCall (G : PGrid F) (Mf : Int → List F → List F) (ns : List Nat)
     match cache with
     | none => fresh
     | some c =>
-      if c.sid = sid then
+      if sid.isSome = true ∧ c.sid = sid then
         match bcastEq c.x1 x1 with
         | none => (cache, none)
         | some true => (cache, some (parEval c t))
@@ -362,14 +364,14 @@ def parCall (G : PGrid F) (Mf : Int → List F → List F) (ns : List Nat)
       else fresh
 
 /-- specification: what a fresh object returns -/
-def parSpec (G : PGrid F) (Mf : Int → List F → List F) (ns : List Nat) (sid : Int) (xs : List F) :
+def parSpec (G : PGrid F) (Mf : Option Int → List F → List F) (ns : List Nat) (sid : Option Int) (xs : List F) :
     Option (List F × List F) :=
   match broadcast (List.zipWith (· - ·) xs (xs.map (roundNearest G))) ns with
   | none => none
   | some t => (parCompute G Mf ns sid xs).map fun c => parEval c t
 
-def parRun (G : PGrid F) (Mf : Int → List F → List F) (ns : List Nat) :
-    Option (ParCache F) → List (Int × List F) → List (Option (List F × List F))
+def parRun (G : PGrid F) (Mf : Option Int → List F → List F) (ns : List Nat) :
+    Option (ParCache F) → List (Option Int × List F) → List (Option (List F × List F))
   | _, [] => []
   | cache, (sid, xs) :: rest =>
     let r := parCall G Mf ns cache sid xs
@@ -384,25 +386,25 @@ arithmetic result (`M1 - M0`, `0.5*(M0 - 2.*M1 + M2)`, …) is a new array — s
 pre-store; an in-place update (`M2 += …`) of a handed-out array would be a different model. -/
 
 /-- arrays owned by the manifold function, keyed by (trial-data state, per-source grid values) -/
-abbrev Store (F : Type) := List ((Int × List F) × List F)
+abbrev Store (F : Type) := List ((Option Int × List F) × List F)
 
 /-- look-up (`[]` for a missing key: the calls then answer `none` through their length guard) -/
-def Store.get (st : Store F) (sid : Int) (g : List F) : List F :=
+def Store.get (st : Store F) (sid : Option Int) (g : List F) : List F :=
   match st.find? (fun e => e.1.1 == sid && e.1.2 == g) with
   | some e => e.2
   | none => []
 
-def linCallS (G : PGrid F) (ns : List Nat) (st : Store F) (cache : Option (LinCache F)) (sid : Int)
+def linCallS (G : PGrid F) (ns : List Nat) (st : Store F) (cache : Option (LinCache F)) (sid : Option Int)
     (xs : List F) : Store F × (Option (LinCache F) × Option (List F × List F)) :=
   (st, linCall G st.get ns cache sid xs)
 
-def parCallS (G : PGrid F) (ns : List Nat) (st : Store F) (cache : Option (ParCache F)) (sid : Int)
+def parCallS (G : PGrid F) (ns : List Nat) (st : Store F) (cache : Option (ParCache F)) (sid : Option Int)
     (xs : List F) : Store F × (Option (ParCache F) × Option (List F × List F)) :=
   (st, parCall G st.get ns cache sid xs)
 
 /-- a history against a store: post-store and the answers -/
 def linRunS (G : PGrid F) (ns : List Nat) :
-    Store F → Option (LinCache F) → List (Int × List F) → Store F × List (Option (List F × List F))
+    Store F → Option (LinCache F) → List (Option Int × List F) → Store F × List (Option (List F × List F))
   | st, _, [] => (st, [])
   | st, cache, (sid, xs) :: rest =>
     let r := linCallS G ns st cache sid xs
@@ -410,7 +412,7 @@ def linRunS (G : PGrid F) (ns : List Nat) :
     (t.1, r.2.2 :: t.2)
 
 def parRunS (G : PGrid F) (ns : List Nat) :
-    Store F → Option (ParCache F) → List (Int × List F) → Store F × List (Option (List F × List F))
+    Store F → Option (ParCache F) → List (Option Int × List F) → Store F × List (Option (List F × List F))
   | st, _, [] => (st, [])
   | st, cache, (sid, xs) :: rest =>
     let r := parCallS G ns st cache sid xs
